@@ -79,3 +79,54 @@ Example C16_nonvacuous :
   snd (proto_body KOther s0) = ODone RNone /\ fst (proto_body KOther s0) = s0 /\
   run_inb5 [[2; 0; 3; 0; 1]; [1; 2; 5]] = [[224; 0; 131; 254; 253; 252; 1; 1; 0]].
 Proof. vm_compute. repeat split; reflexivity. Qed.
+
+(* ================================================================== added: the panic flag (layer 2)
+   The one Panic outcome of the model is the out-of-bounds index `queue[idx]` in DispatcherState::handle_result
+   ([panicked], printed as 9999).  It is unreachable: over ALL operation lists (well-formed or not: the packet
+   identifiers play no role) of fewer than 2^64 operations, from the four initial states.  Invariant
+   (Proofs/InboundRun.v): [W q] -- every response index the dispatcher still tracks (`response_idx` of the inline
+   call, the indices of the spawned calls) is distinct, < 2^64 and, relative to `base`, points at its own
+   SPending slot -- and [J B s] -- W (q_ s) and at most B packets sit in queue slots + read buffer + channel
+   (each packet takes at most one slot, so the queue is shorter than 2^64 and the usize wrapping arithmetic is
+   exact).  [after ops s]: the state after the operations; [trace ops s]: the states the engines observe. *)
+From MV Require Import Proofs.InboundRun.
+
+Theorem C16_no_panic : forall (is5 : bool) (cf : list N) (ops : list (list N)),
+  N.of_nat (length ops) < W64 ->
+  panicked (q_ (after ops (init_st is5 cf))) = false /\
+  panicked (q_ (after ops (init_st_cli is5 cf))) = false /\
+  (forall s, In s (trace ops (init_st is5 cf)) -> panicked (q_ s) = false) /\
+  (forall s, In s (trace ops (init_st_cli is5 cf)) -> panicked (q_ s) = false) /\
+  run_inb is5 (cf :: ops) = run_ops ops (init_st is5 cf) /\
+  run_cli is5 (cf :: ops) = run_ops ops (init_st_cli is5 cf).
+Proof. exact no_panic. Qed.
+Print Assumptions C16_no_panic.
+
+(* the four engines never print the panic observation (a case = configuration :: operations) *)
+Theorem C16_engines_never_panic : forall (c : list (list N)),
+  N.of_nat (length c) <= W64 ->
+  run_inb3 c <> [[9999]] /\ run_inb5 c <> [[9999]] /\ run_cli3 c <> [[9999]] /\ run_cli5 c <> [[9999]].
+Proof. exact engines_never_panic. Qed.
+Print Assumptions C16_engines_never_panic.
+
+(* the invariant is preserved by a response-queue completion and by DispatcherInner::call_service, for ANY
+   request id and result (the dispatcher's bookkeeping of ids is not needed) *)
+Theorem C16_queue_invariant_complete : forall (q : rq) (k : N) (r : hres), W q -> W (complete q k r).
+Proof. exact complete_W. Qed.
+Print Assumptions C16_queue_invariant_complete.
+Theorem C16_queue_invariant_call_service : forall (q : rq) (k : N) (now : option hres),
+  W q -> N.of_nat (length (queue q)) < W64 -> W (fst (call_service q k now)).
+Proof. exact call_service_W. Qed.
+Print Assumptions C16_queue_invariant_call_service.
+
+(* non-vacuity: v3 server, a PUBLISH whose handler is pending (inline call, index 0), then SUBSCRIBE and
+   PINGREQ spawned behind it (indices 1, 2): three pending slots; the protocol service answers the two, the
+   handler completes last: base has advanced by 3, three responses written, no panic *)
+Example C16_no_panic_nonvacuous :
+  let s0 := init_st false [1; 0; 0; 0; 1] in
+  let a := [[1; 1; 1; 1; 1; 0; 0; 0]; [1; 6; 2; 1]; [1; 8]] in
+  let q3 := q_ (after a s0) in
+  let q6 := q_ (after (a ++ [[3; 1; 2]; [3; 2; 0]; [2; 1; 0]]) s0) in
+  queue q3 = [SPending; SPending; SPending] /\ tracked q3 = [0; 1; 2] /\
+  queue q6 = [] /\ base q6 = 3 /\ length (out q6) = 3%nat /\ panicked q6 = false.
+Proof. vm_compute. repeat split; reflexivity. Qed.
